@@ -46,22 +46,30 @@ Proof.
   rewrite (kreply_of _ M) in H. specialize (H (or_introl eq_refl)). lia.
 Qed.
 
-Section Preserve.
+Section Generic.
   Variable cfg : config.
-  Hypothesis Hlock : cf_lock cfg = true.
   Hypothesis Hinv : forall g, In g (cf_reg cfg) -> inverts g.
+  (* the predicate tying a queue to the frames on it, and what the proofs below need of it *)
+  Variable W : ep -> bytes -> list frame_rec -> Prop.
+  Hypothesis W_same : forall e e' q wl,
+    W e q wl -> e_lock e' = e_lock e -> e_writers e' = e_writers e ->
+    e_unlocking e' = e_unlocking e -> W e' q wl.
+  Hypothesis W_pop : forall e q x wl, W e q (x :: wl) ->
+    Wire.wf_frame cfg x /\ exists t, q = fr_bytes x ++ t /\ W e t wl.
+  Hypothesis W_empty : forall e q, W e q [] ->
+    (forall r, raw_unpack (cf_reg cfg) (cf_lim cfg) q <> Ok r) /\ frame_complete (cf_lim cfg) q = false.
 
   Ltac open_inv st s HI ws wo Hw Hl Hwo Hlo :=
-    destruct (Inv_at cfg st s HI) as (ws & wo & ((Hw & Hl) & (Hwo & Hlo))).
+    destruct (InvW_at cfg W st s HI) as (ws & wo & ((Hw & Hl) & (Hwo & Hlo))).
 
   Ltac close_inv s ws wo :=
-    apply (at_Inv cfg _ s ws wo); unfold inv_at;
+    apply (at_InvW cfg W _ s ws wo); unfold inv_atW;
     rewrite ?other_other, ?ep_with_ep_same, ?ep_with_ep_other, ?ep_with_queue,
             ?queue_with_ep, ?queue_with_queue_same, ?queue_with_queue_other.
 
-  Lemma pres_call st st' s method args meta codec ids :
-    sane cfg st -> Inv cfg st ->
-    step cfg st (ECall s method args meta codec ids) = Some st' -> Inv cfg st'.
+  Lemma pres_callW st st' s method args meta codec ids :
+    sane cfg st -> InvW cfg W st ->
+    step cfg st (ECall s method args meta codec ids) = Some st' -> InvW cfg W st'.
   Proof.
     intros Hsane HI Hstep. open_inv st s HI ws wo Hw Hl Hwo Hlo.
     cbn [step] in Hstep.
@@ -83,7 +91,7 @@ Section Preserve.
       assert (Mx : m_mtype (fr_msg x) = x01) by (rewrite Hx; reflexivity).
       assert (Sx : m_seq (fr_msg x) = c_seq c) by (rewrite Hx; reflexivity).
       split; split.
-      + apply (wire_same cfg es _ _ _ Hw); reflexivity.
+      + apply (W_same es _ _ _ Hw); reflexivity.
       + eapply (link_same_gen cfg s es _ eo ws ws wo wo Hl).
         * intros q. rewrite (flight_cons_s es _ eo ws ws wo x q) by reflexivity.
           rewrite (kcall_of _ Mx), Sx.
@@ -116,7 +124,7 @@ Section Preserve.
         * intros a Ha. right. exact Ha.
         * intros a Ha. exact Ha.
     - split; split.
-      + apply (wire_same cfg es _ _ _ Hw); reflexivity.
+      + apply (W_same es _ _ _ Hw); reflexivity.
       + eapply (link_same_gen cfg s es _ eo ws ws wo wo Hl).
         * intros q. exact (Hc q).
         * intros q c0 H. cbn [e_pending e_count e_issued] in *.
@@ -148,8 +156,8 @@ Section Preserve.
     repeat split; try assumption; [lia | apply E3; exact A5].
   Qed.
 
-  Lemma pres_push st st' s method args meta codec ids :
-    Inv cfg st -> step cfg st (EPush s method args meta codec ids) = Some st' -> Inv cfg st'.
+  Lemma pres_pushW st st' s method args meta codec ids :
+    InvW cfg W st -> step cfg st (EPush s method args meta codec ids) = Some st' -> InvW cfg W st'.
   Proof.
     intros HI Hstep. open_inv st s HI ws wo Hw Hl Hwo Hlo.
     cbn [step] in Hstep.
@@ -161,7 +169,7 @@ Section Preserve.
     - destruct (pack_item_spec _ _ _ _ Epack) as [Hx _].
       assert (Mx : m_mtype (fr_msg x) = x03) by (rewrite Hx; reflexivity).
       split; split.
-      + apply (wire_same cfg es _ _ _ Hw); reflexivity.
+      + apply (W_same es _ _ _ Hw); reflexivity.
       + eapply (link_same_gen cfg s es _ eo ws ws wo wo Hl).
         * intros q. rewrite (flight_cons_s es _ eo ws ws wo x q) by reflexivity.
           rewrite kcall_not by (rewrite Mx; discriminate). cbn. apply Hc.
@@ -182,7 +190,7 @@ Section Preserve.
         * apply incl_refl.
         * intros a Ha; first [exact Ha | right; exact Ha].
     - split; split.
-      + apply (wire_same cfg es _ _ _ Hw); reflexivity.
+      + apply (W_same es _ _ _ Hw); reflexivity.
       + eapply (link_same_gen cfg s es _ eo ws ws wo wo Hl).
         * intros q. exact (Hc q).
         * apply (pend_ok_count es); [exact Hp | reflexivity | cbn; lia | apply incl_refl].
@@ -234,115 +242,6 @@ Section Preserve.
     symmetry. apply Permutation_middle.
   Qed.
 
-  Lemma pres_lock st st' s i chunks :
-    sane cfg st -> Inv cfg st -> step cfg st (ELock s i chunks) = Some st' -> Inv cfg st'.
-  Proof.
-    intros Hsane HI Hstep. open_inv st s HI ws wo Hw Hl Hwo Hlo.
-    cbn [step] in Hstep. rewrite Hlock in Hstep. cbn [andb] in Hstep.
-    set (es := ep_of st s) in *. set (eo := ep_of st (other s)) in *.
-    destruct (e_lock es) eqn:Elock; [discriminate|].
-    destruct (take_nth i (e_outbox es)) as [[x rest]|] eqn:Et; [|discriminate].
-    destruct (nonempty (concat chunks) && forallb nonempty chunks
-              && bytes_eqb (concat chunks) (fr_bytes x)) eqn:Echk; [|discriminate].
-    apply andb_true_iff in Echk as [Echk E3]. apply andb_true_iff in Echk as [E1 E2].
-    apply bytes_eqb_eq in E3.
-    destruct (take_nth_spec _ _ _ _ Et) as (l1 & l2 & Eo & Er).
-    inversion Hstep; subst st'; clear Hstep; close_inv s ws wo; fold es eo.
-    destruct Hw as (Wf & Wl & Wn & Wm). destruct (Wl Elock) as [Ww Wu].
-    assert (Hwf : Wire.wf_frame cfg x).
-    { pose proof (proj2 Hsane s) as F. fold es in F. rewrite Eo in F.
-      apply Forall_app in F as [_ F]. inversion F; assumption. }
-    assert (P : Permutation
-       (items (mkEp (e_count es) (e_pending es) rest true ((x, [], chunks) :: e_writers es)
-                    (e_unlocking es) (e_done es) (e_seen es) (e_issued es) (e_sent es) (e_broken es)) ws)
-       (items es ws)).
-    { unfold items. cbn [e_outbox e_writers map wfr fst]. rewrite Eo, Er.
-      rewrite (app_assoc (l1 ++ x :: l2)). rewrite (app_assoc (l1 ++ l2)). apply Permutation_app_tail.
-      apply (perm_move l1 l2 (map wfr (e_writers es)) x). }
-    destruct (link_perm_both s es _ eo ws ws wo Hl Hlo P) as [L1 L2]; try reflexivity.
-    split; split; [|exact L1|exact Hwo|exact L2].
-    unfold wire_inv. cbn [e_lock e_writers e_unlocking]. rewrite Ww in *. rewrite Wu.
-    refine (conj Wf (conj _ (conj _ _))).
-    - discriminate.
-    - cbn. lia.
-    - rewrite Wm, app_nil_r. repeat split; try assumption.
-      intros ->. cbn in E1. discriminate.
-  Qed.
-
-  Lemma pres_unlock st st' s :
-    Inv cfg st -> step cfg st (EUnlock s) = Some st' -> Inv cfg st'.
-  Proof.
-    intros HI Hstep. open_inv st s HI ws wo Hw Hl Hwo Hlo.
-    cbn [step] in Hstep.
-    set (es := ep_of st s) in *. set (eo := ep_of st (other s)) in *.
-    destruct (e_unlocking es) as [|n] eqn:Eu; [discriminate|].
-    inversion Hstep; subst st'; clear Hstep; close_inv s ws wo; fold es eo.
-    destruct Hw as (Wf & Wl & Wn & Wm).
-    assert (Ww : e_writers es = []) by (destruct (e_writers es); [reflexivity | cbn in Wn; lia]).
-    assert (n = O) by (rewrite Ww in Wn; cbn in Wn; lia). subst n.
-    destruct (link_perm_both s es
-      (mkEp (e_count es) (e_pending es) (e_outbox es) false (e_writers es) 0 (e_done es)
-            (e_seen es) (e_issued es) (e_sent es) (e_broken es)) eo ws ws wo Hl Hlo
-      (Permutation_refl _)) as [L1 L2]; try reflexivity.
-    split; split; [|exact L1|exact Hwo|exact L2].
-    unfold wire_inv. cbn [e_lock e_writers e_unlocking]. rewrite Ww in *.
-    refine (conj Wf (conj _ (conj _ Wm))); [auto | cbn; lia].
-  Qed.
-
-  Lemma pres_write st st' s j :
-    Inv cfg st -> step cfg st (EWrite s j) = Some st' -> Inv cfg st'.
-  Proof.
-    intros HI Hstep. open_inv st s HI ws wo Hw Hl Hwo Hlo.
-    cbn [step] in Hstep.
-    set (es := ep_of st s) in *. set (eo := ep_of st (other s)) in *.
-    destruct (take_nth j (e_writers es)) as [[[[x wr] [|c rest]] others]|] eqn:Et; try discriminate.
-    destruct (take_nth_spec _ _ _ _ Et) as (l1 & l2 & Eo & Er).
-    destruct Hw as (Wf & Wl & Wn & Wm).
-    assert (l1 = [] /\ l2 = [] /\ e_unlocking es = O) as (-> & -> & Wu).
-    { rewrite Eo in Wn. rewrite app_length in Wn. cbn in Wn.
-      destruct l1; destruct l2; cbn in Wn; repeat split; try lia; reflexivity. }
-    cbn [app] in Eo, Er. subst others. rewrite Eo in Wm.
-    destruct Wm as (Wq & Wf1 & Wne & Wall & Wx).
-    assert (Elk : e_lock es = true).
-    { destruct (e_lock es) eqn:E; [reflexivity|]. destruct (Wl eq_refl) as [A _]. congruence. }
-    destruct rest as [|c2 r2]; inversion Hstep; subst st'; clear Hstep.
-    - (* last chunk: the frame is whole on the wire *)
-      close_inv s (ws ++ [x]) wo; fold es eo.
-      assert (P : Permutation
-        (items (mkEp (e_count es) (e_pending es) (e_outbox es) (e_lock es) [] (S (e_unlocking es))
-                     (e_done es) (e_seen es) (e_issued es) (e_sent es) (e_broken es)) (ws ++ [x]))
-        (items es ws)).
-      { unfold items. cbn [e_outbox e_writers map]. rewrite Eo. cbn [map wfr fst app].
-        apply Permutation_app_head. symmetry. apply Permutation_cons_append. }
-      destruct (link_perm_both s es _ eo ws (ws ++ [x]) wo Hl Hlo P) as [L1 L2]; try reflexivity.
-      split; split; [|exact L1|exact Hwo|exact L2].
-      unfold wire_inv. cbn [e_lock e_writers e_unlocking].
-      refine (conj _ (conj _ (conj _ _))).
-      + apply Forall_app. split; [exact Wf | constructor; [exact Wx | constructor]].
-      + rewrite Elk. discriminate.
-      + rewrite Wu. cbn. lia.
-      + rewrite map_app, concat_app. cbn [map concat]. rewrite app_nil_r.
-        rewrite <- Wf1. cbn [concat]. rewrite app_nil_r. rewrite Wq, app_assoc. reflexivity.
-    - close_inv s ws wo; fold es eo.
-      assert (P : Permutation
-        (items (mkEp (e_count es) (e_pending es) (e_outbox es) (e_lock es)
-                     [(x, wr ++ c, c2 :: r2)] (e_unlocking es)
-                     (e_done es) (e_seen es) (e_issued es) (e_sent es) (e_broken es)) ws)
-        (items es ws)).
-      { unfold items. cbn [e_outbox e_writers map]. rewrite Eo. apply Permutation_refl. }
-      destruct (link_perm_both s es _ eo ws ws wo Hl Hlo P) as [L1 L2]; try reflexivity.
-      split; split; [|exact L1|exact Hwo|exact L2].
-      unfold wire_inv. cbn [e_lock e_writers e_unlocking].
-      refine (conj Wf (conj _ (conj _ _))).
-      + rewrite Elk. discriminate.
-      + rewrite Wu. cbn. lia.
-      + cbn [forallb] in Wall. apply andb_true_iff in Wall as [_ Wall].
-        repeat split; try assumption.
-        * rewrite Wq, app_assoc. reflexivity.
-        * rewrite <- Wf1. cbn [concat]. rewrite <- !app_assoc. reflexivity.
-        * discriminate.
-  Qed.
-
   Lemma queue_with_queue_other' st s q : queue (with_queue st (other s) q) s = queue st s.
   Proof. destruct s; reflexivity. Qed.
 
@@ -369,40 +268,18 @@ Section Preserve.
       [unfold wf_msg; repeat split; assumption | exact Hk | exact Hl].
   Qed.
 
-  Lemma wire_pop e q x wl : wire_inv cfg e q (x :: wl) ->
-    Wire.wf_frame cfg x /\ exists t, q = fr_bytes x ++ t /\ wire_inv cfg e t wl.
-  Proof.
-    intros (Wf & Wl & Wn & Wm). inversion Wf as [|? ? Wx Wf']; subst. split; [exact Wx|].
-    unfold wire_inv. destruct (e_writers e) as [|[[y wr] rest] [|? ?]]; [| |destruct Wm].
-    - exists (concat (map fr_bytes wl)). cbn [map concat] in Wm. split; [exact Wm|].
-      exact (conj Wf' (conj Wl (conj Wn eq_refl))).
-    - destruct Wm as (Wq & Wr). cbn [map concat] in Wq. rewrite <- app_assoc in Wq.
-      exists (concat (map fr_bytes wl) ++ wr). split; [exact Wq|].
-      exact (conj Wf' (conj Wl (conj Wn (conj eq_refl Wr)))).
-  Qed.
-
-  Lemma wire_empty_waits e q : wire_inv cfg e q [] ->
-    (forall r, raw_unpack (cf_reg cfg) (cf_lim cfg) q <> Ok r) /\ frame_complete (cf_lim cfg) q = false.
-  Proof.
-    intros (Wf & Wl & Wn & Wm).
-    destruct (e_writers e) as [|[[y wr] rest] [|? ?]]; [| |destruct Wm].
-    - cbn in Wm. subst q. apply empty_queue_waits.
-    - destruct Wm as (Wq & Wr & Wne & Wall & Wx). cbn in Wq. subst q.
-      apply (strict_prefix_waits cfg y wr (concat rest) Wx Wr). apply concat_nonempty; assumption.
-  Qed.
-
-  Lemma pres_recv st st' s :
-    Inv cfg st -> step cfg st (ERecv s) = Some st' -> Inv cfg st'.
+  Lemma pres_recvW st st' s :
+    InvW cfg W st -> step cfg st (ERecv s) = Some st' -> InvW cfg W st'.
   Proof.
     intros HI Hstep. open_inv st s HI ws wo Hw Hl Hwo Hlo.
     cbn [step] in Hstep.
     set (es := ep_of st s) in *. set (eo := ep_of st (other s)) in *.
     pose proof Hl as (Hc & Hp & Ho & Hd & Hs & Hb). rewrite Hb in Hstep.
     destruct wo as [|x wo'].
-    { destruct (wire_empty_waits _ _ Hwo) as [A B]. rewrite B in Hstep.
+    { destruct (W_empty _ _ Hwo) as [A B]. rewrite B in Hstep.
       destruct (raw_unpack (cf_reg cfg) (cf_lim cfg) (queue st (other s))) as [r| |] eqn:E;
         try discriminate. exfalso. apply (A r). reflexivity. }
-    destruct (wire_pop _ _ _ _ Hwo) as (Wx & t & Eq & Hwo').
+    destruct (W_pop _ _ _ _ Hwo) as (Wx & t & Eq & Hwo').
     rewrite Eq, (unpack_head x t Wx) in Hstep.
     inversion Hstep; subst st'; clear Hstep.
     close_inv s ws wo'; fold es eo. rewrite queue_with_queue_other'.
@@ -425,7 +302,7 @@ Section Preserve.
         assert (My : m_mtype (fr_msg y) = x02) by (rewrite Hy; apply reply_msg_mtype).
         assert (Sy : m_seq (fr_msg y) = m_seq (fr_msg x)) by (rewrite Hy; apply reply_msg_seq).
         split; split.
-        * apply (wire_same cfg es _ _ _ Hw); reflexivity.
+        * apply (W_same es _ _ _ Hw); reflexivity.
         * eapply (link_same_gen cfg s es _ eo ws ws (x :: wo') wo' Hl).
           -- intros q. rewrite (flight_cons_s es _ eo ws ws wo' y q) by reflexivity.
              rewrite kcall_not by (rewrite My; discriminate). cbn.
@@ -449,7 +326,7 @@ Section Preserve.
           -- apply incl_refl.
           -- apply incl_refl.
       + split; split.
-        * apply (wire_same cfg es _ _ _ Hw); reflexivity.
+        * apply (W_same es _ _ _ Hw); reflexivity.
         * eapply (link_same_gen cfg s es _ eo ws ws (x :: wo') wo' Hl).
           -- intros q. specialize (Hc q). rewrite flight_pop_o in Hc.
              change (cnt (flight2 es eo ws wo') q <= 1)%nat. lia.
@@ -484,7 +361,7 @@ Section Preserve.
         rewrite (kreply_of _ M), cnt_one in Hc.
         pose proof (flight_in_o es eo ws wo' z Hz Mz) as H. rewrite E in H. lia. }
       split; split.
-      + apply (wire_same cfg es _ _ _ Hw); reflexivity.
+      + apply (W_same es _ _ _ Hw); reflexivity.
       + eapply (link_same_gen cfg s es _ eo ws ws (x :: wo') wo' Hl).
         * intros q. specialize (Hc q). rewrite flight_pop_o in Hc.
           change (cnt (flight2 es eo ws wo') q <= 1)%nat. lia.
@@ -512,7 +389,7 @@ Section Preserve.
       replace (beqb x03 x01) with false by reflexivity.
       replace (beqb x03 x02) with false by reflexivity. rewrite (beqb_refl x03).
       split; split.
-      + apply (wire_same cfg es _ _ _ Hw); reflexivity.
+      + apply (W_same es _ _ _ Hw); reflexivity.
       + eapply (link_same_gen cfg s es _ eo ws ws (x :: wo') wo' Hl).
         * intros q. specialize (Hc q). rewrite flight_pop_o in Hc.
           change (cnt (flight2 es eo ws wo') q <= 1)%nat. lia.
@@ -531,4 +408,294 @@ Section Preserve.
         * apply incl_refl.
         * apply incl_refl.
   Qed.
+End Generic.
+
+Section Preserve.
+  Variable cfg : config.
+  Hypothesis Hlock : cf_lock cfg = true.
+  Hypothesis Hinv : forall g, In g (cf_reg cfg) -> inverts g.
+
+  Ltac open_inv st s HI ws wo Hw Hl Hwo Hlo :=
+    destruct (Inv_at cfg st s HI) as (ws & wo & ((Hw & Hl) & (Hwo & Hlo))).
+
+  Ltac close_inv s ws wo :=
+    apply (at_Inv cfg _ s ws wo); unfold inv_at, inv_atW;
+    rewrite ?other_other, ?ep_with_ep_same, ?ep_with_ep_other, ?ep_with_queue,
+            ?queue_with_ep, ?queue_with_queue_same, ?queue_with_queue_other.
+
+  Lemma wire_pop e q x wl : wire_inv cfg e q (x :: wl) ->
+    Wire.wf_frame cfg x /\ exists t, q = fr_bytes x ++ t /\ wire_inv cfg e t wl.
+  Proof.
+    intros (Wf & Wl & Wn & Wm). inversion Wf as [|? ? Wx Wf']; subst. split; [exact Wx|].
+    unfold wire_inv. destruct (e_writers e) as [|[[y wr] rest] [|? ?]]; [| |destruct Wm].
+    - exists (concat (map fr_bytes wl)). cbn [map concat] in Wm. split; [exact Wm|].
+      exact (conj Wf' (conj Wl (conj Wn eq_refl))).
+    - destruct Wm as (Wq & Wr). cbn [map concat] in Wq. rewrite <- app_assoc in Wq.
+      exists (concat (map fr_bytes wl) ++ wr). split; [exact Wq|].
+      exact (conj Wf' (conj Wl (conj Wn (conj eq_refl Wr)))).
+  Qed.
+
+  Lemma wire_empty_waits e q : wire_inv cfg e q [] ->
+    (forall r, raw_unpack (cf_reg cfg) (cf_lim cfg) q <> Ok r) /\ frame_complete (cf_lim cfg) q = false.
+  Proof.
+    intros (Wf & Wl & Wn & Wm).
+    destruct (e_writers e) as [|[[y wr] rest] [|? ?]]; [| |destruct Wm].
+    - cbn in Wm. subst q. apply empty_queue_waits.
+    - destruct Wm as (Wq & Wr & Wne & Wall & Wx). cbn in Wq. subst q.
+      apply (strict_prefix_waits cfg y wr (concat rest) Wx Wr). apply concat_nonempty; assumption.
+  Qed.
+
+  Lemma pres_call st st' s method args meta codec ids :
+    sane cfg st -> Inv cfg st ->
+    step cfg st (ECall s method args meta codec ids) = Some st' -> Inv cfg st'.
+  Proof. exact (pres_callW cfg (wire_inv cfg) (wire_same cfg) st st' s method args meta codec ids). Qed.
+
+  Lemma pres_push st st' s method args meta codec ids :
+    Inv cfg st -> step cfg st (EPush s method args meta codec ids) = Some st' -> Inv cfg st'.
+  Proof. exact (pres_pushW cfg (wire_inv cfg) (wire_same cfg) st st' s method args meta codec ids). Qed.
+
+  Lemma pres_recv st st' s :
+    Inv cfg st -> step cfg st (ERecv s) = Some st' -> Inv cfg st'.
+  Proof.
+    exact (pres_recvW cfg Hinv (wire_inv cfg) (wire_same cfg) wire_pop wire_empty_waits st st' s).
+  Qed.
+
+  Lemma pres_lock st st' s i chunks :
+    sane cfg st -> Inv cfg st -> step cfg st (ELock s i chunks) = Some st' -> Inv cfg st'.
+  Proof.
+    intros Hsane HI Hstep. open_inv st s HI ws wo Hw Hl Hwo Hlo.
+    cbn [step] in Hstep. rewrite Hlock in Hstep. cbn [andb] in Hstep.
+    set (es := ep_of st s) in *. set (eo := ep_of st (other s)) in *.
+    destruct (e_lock es) eqn:Elock; [discriminate|].
+    destruct (take_nth i (e_outbox es)) as [[x rest]|] eqn:Et; [|discriminate].
+    destruct (nonempty (concat chunks) && forallb nonempty chunks
+              && bytes_eqb (concat chunks) (fr_bytes x)) eqn:Echk; [|discriminate].
+    apply andb_true_iff in Echk as [Echk E3]. apply andb_true_iff in Echk as [E1 E2].
+    apply bytes_eqb_eq in E3.
+    destruct (take_nth_spec _ _ _ _ Et) as (l1 & l2 & Eo & Er).
+    inversion Hstep; subst st'; clear Hstep; close_inv s ws wo; fold es eo.
+    destruct Hw as (Wf & Wl & Wn & Wm). destruct (Wl Elock) as [Ww Wu].
+    assert (Hwf : Wire.wf_frame cfg x).
+    { pose proof (proj2 Hsane s) as F. fold es in F. rewrite Eo in F.
+      apply Forall_app in F as [_ F]. inversion F; assumption. }
+    assert (P : Permutation
+       (items (mkEp (e_count es) (e_pending es) rest true ((x, [], chunks) :: e_writers es)
+                    (e_unlocking es) (e_done es) (e_seen es) (e_issued es) (e_sent es) (e_broken es)) ws)
+       (items es ws)).
+    { unfold items. cbn [e_outbox e_writers map wfr fst]. rewrite Eo, Er.
+      rewrite (app_assoc (l1 ++ x :: l2)). rewrite (app_assoc (l1 ++ l2)). apply Permutation_app_tail.
+      apply (perm_move l1 l2 (map wfr (e_writers es)) x). }
+    destruct (link_perm_both cfg s es _ eo ws ws wo Hl Hlo P) as [L1 L2]; try reflexivity.
+    split; split; [|exact L1|exact Hwo|exact L2].
+    unfold wire_inv. cbn [e_lock e_writers e_unlocking]. rewrite Ww in *. rewrite Wu.
+    refine (conj Wf (conj _ (conj _ _))).
+    - discriminate.
+    - cbn. lia.
+    - rewrite Wm, app_nil_r. repeat split; try assumption.
+      intros ->. cbn in E1. discriminate.
+  Qed.
+
+  Lemma pres_unlock st st' s :
+    Inv cfg st -> step cfg st (EUnlock s) = Some st' -> Inv cfg st'.
+  Proof.
+    intros HI Hstep. open_inv st s HI ws wo Hw Hl Hwo Hlo.
+    cbn [step] in Hstep.
+    set (es := ep_of st s) in *. set (eo := ep_of st (other s)) in *.
+    destruct (e_unlocking es) as [|n] eqn:Eu; [discriminate|].
+    inversion Hstep; subst st'; clear Hstep; close_inv s ws wo; fold es eo.
+    destruct Hw as (Wf & Wl & Wn & Wm).
+    assert (Ww : e_writers es = []) by (destruct (e_writers es); [reflexivity | cbn in Wn; lia]).
+    assert (n = O) by (rewrite Ww in Wn; cbn in Wn; lia). subst n.
+    destruct (link_perm_both cfg s es
+      (mkEp (e_count es) (e_pending es) (e_outbox es) false (e_writers es) 0 (e_done es)
+            (e_seen es) (e_issued es) (e_sent es) (e_broken es)) eo ws ws wo Hl Hlo
+      (Permutation_refl _)) as [L1 L2]; try reflexivity.
+    split; split; [|exact L1|exact Hwo|exact L2].
+    unfold wire_inv. cbn [e_lock e_writers e_unlocking]. rewrite Ww in *.
+    refine (conj Wf (conj _ (conj _ Wm))); [auto | cbn; lia].
+  Qed.
+
+  Lemma pres_write st st' s j :
+    Inv cfg st -> step cfg st (EWrite s j) = Some st' -> Inv cfg st'.
+  Proof.
+    intros HI Hstep. open_inv st s HI ws wo Hw Hl Hwo Hlo.
+    cbn [step] in Hstep.
+    set (es := ep_of st s) in *. set (eo := ep_of st (other s)) in *.
+    destruct (take_nth j (e_writers es)) as [[[[x wr] [|c rest]] others]|] eqn:Et; try discriminate.
+    destruct (take_nth_spec _ _ _ _ Et) as (l1 & l2 & Eo & Er).
+    destruct Hw as (Wf & Wl & Wn & Wm).
+    assert (l1 = [] /\ l2 = [] /\ e_unlocking es = O) as (-> & -> & Wu).
+    { rewrite Eo in Wn. rewrite app_length in Wn. cbn in Wn.
+      destruct l1; destruct l2; cbn in Wn; repeat split; try lia; reflexivity. }
+    cbn [app] in Eo, Er. subst others. rewrite Eo in Wm.
+    destruct Wm as (Wq & Wf1 & Wne & Wall & Wx).
+    assert (Elk : e_lock es = true).
+    { destruct (e_lock es) eqn:E; [reflexivity|]. destruct (Wl eq_refl) as [A _]. congruence. }
+    destruct rest as [|c2 r2]; inversion Hstep; subst st'; clear Hstep.
+    - (* last chunk: the frame is whole on the wire *)
+      close_inv s (ws ++ [x]) wo; fold es eo.
+      assert (P : Permutation
+        (items (mkEp (e_count es) (e_pending es) (e_outbox es) (e_lock es) [] (S (e_unlocking es))
+                     (e_done es) (e_seen es) (e_issued es) (e_sent es) (e_broken es)) (ws ++ [x]))
+        (items es ws)).
+      { unfold items. cbn [e_outbox e_writers map]. rewrite Eo. cbn [map wfr fst app].
+        apply Permutation_app_head. symmetry. apply Permutation_cons_append. }
+      destruct (link_perm_both cfg s es _ eo ws (ws ++ [x]) wo Hl Hlo P) as [L1 L2]; try reflexivity.
+      split; split; [|exact L1|exact Hwo|exact L2].
+      unfold wire_inv. cbn [e_lock e_writers e_unlocking].
+      refine (conj _ (conj _ (conj _ _))).
+      + apply Forall_app. split; [exact Wf | constructor; [exact Wx | constructor]].
+      + rewrite Elk. discriminate.
+      + rewrite Wu. cbn. lia.
+      + rewrite map_app, concat_app. cbn [map concat]. rewrite app_nil_r.
+        rewrite <- Wf1. cbn [concat]. rewrite app_nil_r. rewrite Wq, app_assoc. reflexivity.
+    - close_inv s ws wo; fold es eo.
+      assert (P : Permutation
+        (items (mkEp (e_count es) (e_pending es) (e_outbox es) (e_lock es)
+                     [(x, wr ++ c, c2 :: r2)] (e_unlocking es)
+                     (e_done es) (e_seen es) (e_issued es) (e_sent es) (e_broken es)) ws)
+        (items es ws)).
+      { unfold items. cbn [e_outbox e_writers map]. rewrite Eo. apply Permutation_refl. }
+      destruct (link_perm_both cfg s es _ eo ws ws wo Hl Hlo P) as [L1 L2]; try reflexivity.
+      split; split; [|exact L1|exact Hwo|exact L2].
+      unfold wire_inv. cbn [e_lock e_writers e_unlocking].
+      refine (conj Wf (conj _ (conj _ _))).
+      + rewrite Elk. discriminate.
+      + rewrite Wu. cbn. lia.
+      + cbn [forallb] in Wall. apply andb_true_iff in Wall as [_ Wall].
+        repeat split; try assumption.
+        * rewrite Wq, app_assoc. reflexivity.
+        * rewrite <- Wf1. cbn [concat]. rewrite <- !app_assoc. reflexivity.
+        * discriminate.
+  Qed.
+
 End Preserve.
+
+(* ================================================================ without the lock, but
+   with every frame handed to the connection in ONE Write *)
+Section Single.
+  Variable cfg : config.
+  Hypothesis Hnolock : cf_lock cfg = false.
+  Hypothesis Hinv : forall g, In g (cf_reg cfg) -> inverts g.
+
+  (* the queue holds whole frames only; every goroutine inside WriteMessage still has its
+     whole frame to write, as one chunk *)
+  Definition wire1 (e : ep) (q : bytes) (wl : list frame_rec) : Prop :=
+    Forall (Wire.wf_frame cfg) wl /\ q = concat (map fr_bytes wl) /\
+    Forall (fun y : writer => snd (fst y) = [] /\ snd y = [fr_bytes (fst (fst y))] /\
+                              Wire.wf_frame cfg (fst (fst y))) (e_writers e).
+
+  Lemma wire1_same e e' q wl :
+    wire1 e q wl -> e_lock e' = e_lock e -> e_writers e' = e_writers e ->
+    e_unlocking e' = e_unlocking e -> wire1 e' q wl.
+  Proof. unfold wire1. intros H _ -> _. exact H. Qed.
+
+  Lemma wire1_pop e q x wl : wire1 e q (x :: wl) ->
+    Wire.wf_frame cfg x /\ exists t, q = fr_bytes x ++ t /\ wire1 e t wl.
+  Proof.
+    intros (Wf & Wq & Ww). inversion Wf as [|? ? Wx Wf']; subst. split; [exact Wx|].
+    exists (concat (map fr_bytes wl)). split; [reflexivity|]. exact (conj Wf' (conj eq_refl Ww)).
+  Qed.
+
+  Lemma wire1_empty e q : wire1 e q [] ->
+    (forall r, raw_unpack (cf_reg cfg) (cf_lim cfg) q <> Ok r) /\ frame_complete (cf_lim cfg) q = false.
+  Proof. intros (_ & -> & _). apply empty_queue_waits. Qed.
+
+  Definition Inv1 := InvW cfg wire1.
+
+  Ltac open_inv st s HI ws wo Hw Hl Hwo Hlo :=
+    destruct (InvW_at cfg wire1 st s HI) as (ws & wo & ((Hw & Hl) & (Hwo & Hlo))).
+
+  Ltac close_inv s ws wo :=
+    apply (at_InvW cfg wire1 _ s ws wo); unfold inv_atW;
+    rewrite ?other_other, ?ep_with_ep_same, ?ep_with_ep_other, ?ep_with_queue,
+            ?queue_with_ep, ?queue_with_queue_same, ?queue_with_queue_other.
+
+  Lemma pres1_lock st st' s i chunks :
+    length chunks = 1%nat ->
+    sane cfg st -> Inv1 st -> step cfg st (ELock s i chunks) = Some st' -> Inv1 st'.
+  Proof.
+    intros Hone Hsane HI Hstep. open_inv st s HI ws wo Hw Hl Hwo Hlo.
+    cbn [step] in Hstep. rewrite Hnolock in Hstep. cbn [andb] in Hstep.
+    set (es := ep_of st s) in *. set (eo := ep_of st (other s)) in *.
+    destruct (take_nth i (e_outbox es)) as [[x rest]|] eqn:Et; [|discriminate].
+    destruct (nonempty (concat chunks) && forallb nonempty chunks
+              && bytes_eqb (concat chunks) (fr_bytes x)) eqn:Echk; [|discriminate].
+    apply andb_true_iff in Echk as [_ E3]. apply bytes_eqb_eq in E3.
+    destruct chunks as [|c [|? ?]]; try discriminate. cbn in E3. rewrite app_nil_r in E3. subst c.
+    destruct (take_nth_spec _ _ _ _ Et) as (l1 & l2 & Eo & Er).
+    inversion Hstep; subst st'; clear Hstep; close_inv s ws wo; fold es eo.
+    destruct Hw as (Wf & Wq & Ww).
+    assert (Hwf : Wire.wf_frame cfg x).
+    { pose proof (proj2 Hsane s) as F. fold es in F. rewrite Eo in F.
+      apply Forall_app in F as [_ F]. inversion F; assumption. }
+    assert (P : Permutation
+       (items (mkEp (e_count es) (e_pending es) rest false ((x, [], [fr_bytes x]) :: e_writers es)
+                    (e_unlocking es) (e_done es) (e_seen es) (e_issued es) (e_sent es) (e_broken es)) ws)
+       (items es ws)).
+    { unfold items. cbn [e_outbox e_writers map wfr fst]. rewrite Eo, Er.
+      rewrite (app_assoc (l1 ++ x :: l2)). rewrite (app_assoc (l1 ++ l2)). apply Permutation_app_tail.
+      apply (perm_move l1 l2 (map wfr (e_writers es)) x). }
+    destruct (link_perm_both cfg s es _ eo ws ws wo Hl Hlo P) as [L1 L2]; try reflexivity.
+    split; split; [|exact L1|exact Hwo|exact L2].
+    refine (conj Wf (conj Wq _)). cbn [e_writers]. constructor; [|exact Ww].
+    cbn. auto.
+  Qed.
+
+  Lemma pres1_write st st' s j :
+    Inv1 st -> step cfg st (EWrite s j) = Some st' -> Inv1 st'.
+  Proof.
+    intros HI Hstep. open_inv st s HI ws wo Hw Hl Hwo Hlo.
+    cbn [step] in Hstep.
+    set (es := ep_of st s) in *. set (eo := ep_of st (other s)) in *.
+    destruct (take_nth j (e_writers es)) as [[[[x wr] [|c rest]] others]|] eqn:Et; try discriminate.
+    destruct (take_nth_spec _ _ _ _ Et) as (l1 & l2 & Eo & Er).
+    destruct Hw as (Wf & Wq & Ww).
+    pose proof Ww as Ww0. rewrite Eo in Ww0. apply Forall_app in Ww0 as [W1 W2].
+    inversion W2 as [|? ? Wy W2']; subst. cbn [fst snd] in Wy. destruct Wy as (Ewr & Ech & Wx).
+    inversion Ech; subst. clear Ech.
+    inversion Hstep; subst st'; clear Hstep.
+    close_inv s (ws ++ [x]) wo; fold es eo.
+    assert (P : Permutation
+      (items (mkEp (e_count es) (e_pending es) (e_outbox es) (e_lock es) (l1 ++ l2) (S (e_unlocking es))
+                   (e_done es) (e_seen es) (e_issued es) (e_sent es) (e_broken es)) (ws ++ [x]))
+      (items es ws)).
+    { unfold items. cbn [e_outbox e_writers]. rewrite Eo. rewrite !map_app. cbn [map wfr fst].
+      apply Permutation_app_head. rewrite <- !app_assoc. apply Permutation_app_head.
+      cbn [app]. rewrite app_assoc. symmetry. apply Permutation_cons_append. }
+    destruct (link_perm_both cfg s es _ eo ws (ws ++ [x]) wo Hl Hlo P) as [L1 L2]; try reflexivity.
+    split; split; [|exact L1|exact Hwo|exact L2].
+    refine (conj _ (conj _ _)).
+    - apply Forall_app. split; [exact Wf | constructor; [exact Wx | constructor]].
+    - rewrite map_app, concat_app. cbn [map concat]. rewrite app_nil_r, Wq. reflexivity.
+    - cbn [e_writers]. apply Forall_app. split; assumption.
+  Qed.
+
+  Lemma pres1_unlock st st' s :
+    Inv1 st -> step cfg st (EUnlock s) = Some st' -> Inv1 st'.
+  Proof.
+    intros HI Hstep. open_inv st s HI ws wo Hw Hl Hwo Hlo.
+    cbn [step] in Hstep.
+    set (es := ep_of st s) in *. set (eo := ep_of st (other s)) in *.
+    destruct (e_unlocking es) as [|n] eqn:Eu; [discriminate|].
+    inversion Hstep; subst st'; clear Hstep; close_inv s ws wo; fold es eo.
+    destruct (link_perm_both cfg s es
+      (mkEp (e_count es) (e_pending es) (e_outbox es) false (e_writers es) n (e_done es)
+            (e_seen es) (e_issued es) (e_sent es) (e_broken es)) eo ws ws wo Hl Hlo
+      (Permutation_refl _)) as [L1 L2]; try reflexivity.
+    split; split; [|exact L1|exact Hwo|exact L2].
+    exact Hw.
+  Qed.
+
+  Lemma pres1_step st ev st' :
+    single_write ev -> sane cfg st -> Inv1 st -> step cfg st ev = Some st' -> Inv1 st'.
+  Proof.
+    intros Hs Hsane HI Hstep. destruct ev.
+    - exact (pres_callW cfg wire1 wire1_same st st' s method args meta codec ids Hsane HI Hstep).
+    - exact (pres_pushW cfg wire1 wire1_same st st' s method args meta codec ids HI Hstep).
+    - exact (pres1_lock st st' s i chunks Hs Hsane HI Hstep).
+    - exact (pres1_write st st' s j HI Hstep).
+    - exact (pres1_unlock st st' s HI Hstep).
+    - exact (pres_recvW cfg Hinv wire1 wire1_same wire1_pop wire1_empty st st' s HI Hstep).
+  Qed.
+End Single.
